@@ -18,7 +18,7 @@ func (e *env) rootCtx(kind string, percycle context.Context) context.Context {
 		return e.long
 	case "custom":
 		return e.custom
-	case "percycle":
+	case "percycle", "done":
 		return percycle
 	}
 	panic("leak: unknown parent kind " + kind)
@@ -69,6 +69,10 @@ func (e *env) cycle() {
 	if sp.Parent == "percycle" {
 		pctx, pcancel = context.WithCancel(context.Background())
 	}
+	if sp.Parent == "done" {
+		pctx, pcancel = context.WithCancel(context.Background())
+		pcancel() // already done when CreateScope sees it
+	}
 	var hostCr creator = e.p
 	baseLevel := int8(0)
 	if len(e.hosts) > 0 {
@@ -96,6 +100,10 @@ func (e *env) cycle() {
 				ctx = context.Background()
 			case "long":
 				ctx = e.long
+			case "done":
+				dctx, dcancel := context.WithCancel(context.Background())
+				dcancel()
+				ctx = dctx
 			}
 		}
 		e.reg.setCloseErr(e.closeErrMask(i))
